@@ -67,6 +67,10 @@ class KeyGen:
             v = r.randint(1, self.span) * bf ** j
             if r.random() < 0.03:
                 v = 0
+            if r.random() < 0.04:
+                # the ends of the 64-bit range: orders that subtract, or layers that negate, go wrong here
+                v = r.choice([2 ** 63 - 1, 2 ** 63 - 2, 2 ** 62, 2 ** 62 + 1, 2 ** 63 - bf, (2 ** 62 // bf) * bf] if k == 0 else
+                             [2 ** 64 - 1, 2 ** 64 - 2, 2 ** 63, 2 ** 63 + 1, 2 ** 64 - bf, (2 ** 63 // bf) * bf])
             if k == 0 and r.random() < 0.4:
                 v = -v
             return ("i:%d" if k == 0 else "u:%d") % v
@@ -96,6 +100,11 @@ def gen_val(rng, vt):
         return hx(json.dumps("".join(rng.choice("abc xyz") for _ in range(rng.randint(0, 4)))).encode())
     if vt == "ints":
         return hx(json.dumps([rng.randint(0, 9) for _ in range(rng.randint(0, 3))], separators=(",", ":")).encode())
+    if vt == "pst":   # struct {A int; P *string `json:"p,omitempty"`}: comparable, holds a pointer
+        d = {"A": rng.randint(0, 5)}
+        if rng.random() < 0.7:
+            d["p"] = "".join(rng.choice("abc") for _ in range(rng.randint(0, 2)))
+        return hx(json.dumps(d, separators=(",", ":")).encode())
     c = rng.random()
     if c < 0.4:
         return hx(str(rng.randint(0, 99)).encode())
@@ -112,10 +121,12 @@ class H:
         self.bf = bf if bf is not None else rng.choice(bfs)
         self.fmt = fmt or rng.choice(["bin", "bin", "v1"])
         self.kind = kind if kind is not None else rng.choice([0, 0, 1, 2, 3, 4, 5, 5])
-        self.vt = vt or rng.choice(["raw", "raw", "int", "str", "ints"])
+        self.vt = vt or rng.choice(["raw", "raw", "int", "str", "ints", "pst"])
         self.cache = cache or rng.choice(["none", "none", "big", "tiny"])
         self.wide = wide if wide is not None else rng.choice([0, 1])
         self.opts = dict(opts or {})
+        if "callbacks" not in self.opts and rng.random() < 0.25:
+            self.opts["callbacks"] = 1    # the configuration carries its own KeyCompare / Marshal / Unmarshal (default meaning)
         self.ops = []
         self.kg = KeyGen(rng, self.kind, self.bf)
         self.ref = {}        # tree id -> {key: val}
@@ -310,12 +321,30 @@ def prof_canon(rng, n, tier):
             target[kg.key()] = gen_val(rng, h.vt)
         if rng.random() < 0.1:
             target = {}
+        jump = h.kind in (0, 1) and h.bf <= 4 and rng.random() < 0.25
+        if jump:
+            # many keys of layer 0, none of the layers in between, then one or two keys several layers up:
+            # the tree has to grow more than one level at once
+            target = {}
+            bf = h.bf
+            want = bf ** rng.choice([2, 3]) + rng.randint(1, 6)
+            v = 1
+            while len(target) < want:
+                if v % bf:
+                    target[("i:%d" if h.kind == 0 else "u:%d") % v] = gen_val(rng, h.vt)
+                v += 1
+            high = [("i:%d" if h.kind == 0 else "u:%d") % (bf ** rng.randint(3, 5) * rng.choice([1, 1, 2, 3]) * (1 if x == 0 else bf + 1)) for x in range(rng.randint(1, 2))]
+            for k in high:
+                target[k] = gen_val(rng, h.vt)
+            h.tags.add("jump")
         keys = sorted(target, key=key_sort)
         routes = rng.randint(2, 4)
         for rt in range(routes):
             t = h.new()
             order = keys[:]
             mode = rng.choice(["shuffle", "asc", "desc", "detour", "reload", "detour"])
+            if jump and rt == 0:
+                mode = "lowfirst"; order = [k for k in keys if k not in high] + high
             if mode == "shuffle":
                 rng.shuffle(order)
             elif mode == "desc":
@@ -548,6 +577,21 @@ def prof_malformed(rng, n, tier):
     """C19: valid roots, then perturbed Root fields / loader configuration / top-node bytes"""
     out = []
     for i in range(n):
+        if i % 5 == 4:
+            # an intact root loaded under a caller-supplied key order that differs from the builder's (decimal text):
+            # must be rejected exactly when the top node's neighbours are out of order under it (oracle only: nomodel)
+            h = H("mal%d" % i, rng, cache="none", kind=rng.choice([0, 1]), bf=rng.choice([16, 17, 5]), opts={"nomodel": 1, "callbacks": 0})
+            pre = "i:%d" if h.kind == 0 else "u:%d"
+            t = h.new()
+            vs = rng.sample(range(2, 400), rng.randint(2, 12))
+            if rng.random() < 0.6:
+                vs.append(1)      # "1" is the smallest key under both orders: only the later neighbours are out of order
+            for v in vs:
+                h.ins(t, pre % v, gen_val(rng, h.vt))
+            r = h.mkroot(t)
+            h.ops.append("loadord %d %d 0 %d text" % (r, h.nt, h.kind)); h.nt += 1
+            out.append(h)
+            continue
         h = H("mal%d" % i, rng, cache=rng.choice(["none", "none", "big"]), kind=rng.choice([0, 0, 1, 2, 5]))
         t = h.new()
         build_tree(h, t, rng.choice([0, 1, 2, 5, 15, 40]))
@@ -608,6 +652,25 @@ def prof_faults(rng, n, tier):
     re-run with a fault at every Load / KeyCompare / Marshal call it makes"""
     out = []
     for i in range(n):
+        if i % 4 == 3:
+            # deep deletes: a dense tree of height >= 2 reloaded from the store, some leaves touched so that parts of
+            # it are private in-memory nodes, then deletes of the keys of the upper layers (merges across levels)
+            h = H("flt%d" % i, rng, cache="none", kind=rng.choice([0, 1]), vt="int", bfs=[2, 3, 4])
+            bf = h.bf; pre = "i:%d" if h.kind == 0 else "u:%d"
+            N = rng.randint(bf ** 3 + 1, bf ** 3 + 3 * bf ** 2)
+            t = h.new()
+            for v in range(1, N + 1):
+                h.ins(t, pre % v, gen_val(rng, h.vt))
+            x = h.load(h.mkroot(t))
+            for _ in range(rng.randint(1, 4)):
+                h.ins(x, pre % rng.randint(1, N), gen_val(rng, h.vt))
+            h.opts["from"] = len(h.ops)
+            ups = [v for v in range(1, N + 1) if v % (bf * bf) == 0]
+            rng.shuffle(ups)
+            for v in ups[: rng.randint(2, 5)]:
+                h.dele(x, pre % v)
+            out.append(h)
+            continue
         h = H("flt%d" % i, rng, cache="none", kind=rng.choice([0, 0, 1, 2, 4, 5]), vt=rng.choice(["int", "raw"]), bfs=[2, 2, 3, 4])
         t = h.new()
         build_tree(h, t, rng.choice([3, 8, 20, 45]))
